@@ -438,6 +438,14 @@ CLAIMED["C13"]["text"] += (" Round 6: THE PREDICATE is Lean: Sf.AbsMeta.Chunks.j
                             "min (datalen, size) bytes copied), the container's audio chunk visited exactly once by a full iteration, twin run without chunks (audio and strings equal). Chunks.accepted_iff (meaning + completeness), model_entries_accepted / model_getData_accepted / "
                             "model_refusals_allowed (the read table of chunks_roundtrip_within_cap, getData and accepts pass the clauses).")
 
+_VOX6 = (" Round 6: OKI/VOX ADPCM odd item counts (KF-VOX-ODD / KF-C10-vox-odd) are REPAIRED in the library (the odd sample of a call is held for the next call / for close); "
+         "lean/SfModel/Oki.lean models the held sample, the old rule stays as writeBlockOld / readBlockOld; vlib/voxcamp.py cuts one vector of shorts into calls at odd and even positions. ")
+CLAIMED["C05"]["text"] += _VOX6 + "Full strength: vox_handle_read (sf_read_* on a VOX handle after any history: min (n, frames left), position, stream, zero fill at the end), vox_read_contract, vox_read_call_contract, vox_write_contract (SfProps/C05Vox.lean); no VOX class is waived any more."
+CLAIMED["C06"]["text"] += _VOX6 + "vox_read_partition: any partition into read calls of any parity delivers the same stream."
+CLAIMED["C07"]["text"] += _VOX6 + "vox_partition (two calls cut anywhere = one call), vox_file_bytes_partition (closed file = pair encoder over the concatenated samples), vox_write_call_staging."
+CLAIMED["C04"]["text"] += _VOX6 + "vox_frames_bound: N <= F < N + 2 for every partition into write calls, vox_reopen_delivers_frames."
+CLAIMED["C01"]["text"] += _VOX6 + "vox_write_count (every call reports its count), vox_even_unchanged (even-count callers get the bytes of before)."
+CLAIMED["C10"]["text"] += " Round 6: the class KF.voxOdd is gone from C10_partial (the only excluded class left is rate 0): RAW/VOX_ADPCM writes of an odd number of frames return the count (vox_odd_write_old_rule keeps the old rule)."
 
 def main():
     checks = []
